@@ -107,13 +107,33 @@ type machine struct {
 	jsonDecBuf map[*value][]value
 	funcsHit   map[string]bool
 	stubsHit   map[string]bool
+	pcH        [2]uint64 // commutative hash of the set of asserted conjuncts
+	pcSeen     map[[2]uint64]bool
 }
 
 func (m *machine) replaying() bool { return len(m.log) < len(m.prefix) }
 
+type queryKey struct {
+	pc, ex [2]uint64
+	mode   smt.Mode
+}
+
+type queryAns struct {
+	res   smt.Result
+	model smt.Model
+}
+
 func (m *machine) assertPC(t *smt.Term) {
 	if t.IsConst() {
 		return
+	}
+	if !m.pcSeen[t.H] {
+		if m.pcSeen == nil {
+			m.pcSeen = map[[2]uint64]bool{}
+		}
+		m.pcSeen[t.H] = true
+		m.pcH[0] += t.H[0]
+		m.pcH[1] += t.H[1]
 	}
 	m.script.Lines = append(m.script.Lines, "(assert "+m.script.Ref(t)+")")
 	m.known[t.ID] = true
@@ -155,12 +175,31 @@ func (m *machine) check(extra *smt.Term, timeout time.Duration, wantModel bool) 
 	if m.script.Err != nil {
 		panic(engineError("encoding: " + m.script.Err.Error()))
 	}
+	key := queryKey{pc: m.pcH, mode: m.h.Mode}
+	if extra != nil {
+		key.ex = extra.H
+	}
+	if !m.w.NoQueryCache {
+		if a, ok := m.w.QueryCache.Load(key); ok {
+			m.w.CacheHits.Add(1)
+			qa := a.(queryAns)
+			return qa.res, qa.model
+		}
+	}
 	var vars []*smt.Term
 	if wantModel {
 		vars = m.ctx.Vars
 	}
 	t0 := time.Now()
 	defer func() { m.solverTime += time.Since(t0) }()
+	res, model := m.checkUncached(ex, timeout, vars)
+	if res == smt.Unsat || (res == smt.Sat && wantModel) {
+		m.w.QueryCache.Store(key, queryAns{res, model})
+	}
+	return res, model
+}
+
+func (m *machine) checkUncached(ex []string, timeout time.Duration, vars []*smt.Term) (smt.Result, smt.Model) {
 	for _, v := range vars {
 		m.script.Ref(v) // declare before use; no emission inside the racing goroutines
 	}
@@ -391,7 +430,7 @@ func (m *machine) addViolation(kind, label, msg string, model smt.Model) {
 	}
 	m.violations = append(m.violations, Violation{
 		Harness: m.h.Name, Label: label, Kind: kind, Msg: msg,
-		Inputs: m.replayInputs(model), Path: append([]int(nil), m.log...), MapOrder: m.mapPerms > 0,
+		Inputs: m.replayInputs(model), Path: append([]int(nil), m.log...), MapOrder: m.mapPerms > 0 || m.sched != nil,
 	})
 }
 
